@@ -539,3 +539,75 @@ theorem serializePairs_parse (ps : List (Str × Str)) (block rest : Bytes) (h : 
       by simp only [encPair]; rw [utf8_mem_lt _ _ (by omega)]; exact h3⟩
 
 end Wpull.Warc
+
+namespace Wpull.Warc
+open Wpull
+
+/-! ### `read_cdx`: strip and split -/
+
+theorem dropWhile_append_all (p : Nat → Bool) (l1 l2 : List Nat) (h : ∀ c ∈ l1, p c = true) :
+    (l1 ++ l2).dropWhile p = l2.dropWhile p := by
+  induction l1 with
+  | nil => rfl
+  | cons a t ih =>
+    have ha := h a (by simp)
+    simp [ha, ih (fun c hc => h c (by simp [hc]))]
+
+theorem lstrip_append (b t : Str) : lstrip (b ++ t) = if lstrip b = [] then lstrip t else lstrip b ++ t := by
+  induction b with
+  | nil => simp [lstrip]
+  | cons a r ih =>
+    unfold lstrip at *
+    by_cases ha : isSpace a = true
+    · simp [ha, ih]
+    · simp [ha]
+
+theorem mem_of_mem_lstrip (s : Str) (x : Nat) (h : x ∈ lstrip s) : x ∈ s :=
+  (List.dropWhile_sublist _).subset h
+
+/-- trailing white space (a line terminator) is gone after `strip`, nothing else is added -/
+theorem mem_strip_append_ws (b t : Str) (x : Nat) (ht : ∀ c ∈ t, isSpace c = true) (h : x ∈ strip (b ++ t)) : x ∈ b := by
+  unfold strip at h
+  rw [List.mem_reverse] at h
+  rw [lstrip_append] at h
+  by_cases hb : lstrip b = []
+  · rw [if_pos hb] at h
+    have : lstrip t = [] := by
+      have := dropWhile_append_all isSpace t [] ht
+      simpa [lstrip] using this
+    rw [this] at h
+    simp [lstrip] at h
+  · rw [if_neg hb, List.reverse_append] at h
+    unfold lstrip at h
+    rw [dropWhile_append_all _ _ _ (fun c hc => ht c (List.mem_reverse.mp hc))] at h
+    have h2 := (List.dropWhile_sublist _).subset h
+    rw [List.mem_reverse] at h2
+    exact (List.dropWhile_sublist _).subset h2
+
+theorem mem_splitOn1_go (s acc : List Nat) (sep : Nat) (col : List Nat) (x : Nat)
+    (hc : col ∈ splitOn1.go sep s acc) (hx : x ∈ col) : x ∈ s ∨ x ∈ acc := by
+  induction s generalizing acc with
+  | nil =>
+    simp [splitOn1.go] at hc; subst hc
+    right; simpa using hx
+  | cons c t ih =>
+    unfold splitOn1.go at hc
+    split at hc
+    · rcases List.mem_cons.mp hc with rfl | h2
+      · right; simpa using hx
+      · rcases ih [] h2 with h3 | h3
+        · left; simp [h3]
+        · simp at h3
+    · rcases ih (c :: acc) hc with h3 | h3
+      · left; simp [h3]
+      · rcases List.mem_cons.mp h3 with rfl | h4
+        · left; simp
+        · right; exact h4
+
+theorem mem_splitOn1 (s : List Nat) (sep : Nat) (col : List Nat) (x : Nat) (hc : col ∈ splitOn1 s sep) (hx : x ∈ col) :
+    x ∈ s := by
+  rcases mem_splitOn1_go s [] sep col x hc hx with h | h
+  · exact h
+  · simp at h
+
+end Wpull.Warc
